@@ -28,7 +28,9 @@ class DictValue(GenericValue):
             child_node = None
             if self._ast_node is not None:
                 assert isinstance(self._ast_node, ast.Dict)
-                if index in old_value:
+                if index in old_value and None not in self._ast_node.keys:
+                    # (the values of a display with a star-expression
+                    # can not be assigned to its nodes)
                     pos = list(old_value.keys()).index(index)
                     child_node = self._ast_node.values[pos]
 
